@@ -398,7 +398,10 @@ fn read_std(reader: &mut BinReader, emitter: &impl Emitter, format: &dyn FileFor
             })?;
             Ok((key, value))
         }).collect::<ReadResult<IndexMap<_, _>>>()?;
-    assert_eq!(num_quads, objects.values().map(|x| x.quads.len()).sum::<usize>());
+    let actual_num_quads = objects.values().map(|x| x.quads.len()).sum::<usize>();
+    if num_quads != actual_num_quads {
+        emitter.emit(warning!("quad count in header ({}) does not match the objects ({})", num_quads, actual_num_quads)).ignore();
+    }
 
     let instances = {
         reader.seek_to(start_pos + instances_offset)?;
